@@ -177,6 +177,63 @@ pub fn run(ctx: &mut Ctx) {
                 }
             }
         }
+        // error messages whose quoted datagram ends at, just before and just after the end of its IP header
+        // (every IPv4 header length; IPv6 with no / one / two extension headers): nothing, or only the first
+        // bytes, of the quoted ICMP message is there
+        {
+            let err_types: &[u8] = if v6 { &[1, 2, 3, 4] } else { &[3, 4, 5, 11, 12] };
+            let mut quoted: Vec<Vec<u8>> = vec![];
+            if v6 {
+                for nexts in [vec![58u8], vec![0, 58], vec![0, 60, 58], vec![43, 58], vec![17]] {
+                    let mut h = v6hdr.clone();
+                    h[6] = nexts[0];
+                    for w in nexts.windows(2) {
+                        h.extend_from_slice(&[w[1], 0, 0, 0, 0, 0, 0, 0]);
+                    }
+                    quoted.push(h);
+                }
+            } else {
+                for ihl in 5u8..=15 {
+                    for proto in [1u8, 17] {
+                        let mut h = vec![0u8; ihl as usize * 4];
+                        h[0] = 0x40 | ihl;
+                        h[2] = 0;
+                        h[3] = ihl * 4;
+                        h[8] = 64;
+                        h[9] = proto;
+                        h[12..16].copy_from_slice(&[10, 0, 0, 1]);
+                        h[16..20].copy_from_slice(&[10, 0, 0, 2]);
+                        quoted.push(h);
+                    }
+                }
+            }
+            let echo: [u8; 12] = [if v6 { 128 } else { 8 }, 0, 0x12, 0x34, 0xab, 0xcd, 0, 7, 1, 2, 3, 4];
+            for ty in err_types {
+                for h in &quoted {
+                    for extra in -2i32..=12 {
+                        let mut p = vec![*ty, 0, 0, 0, 0, 0, 0, 0];
+                        if extra < 0 {
+                            p.extend_from_slice(&h[..h.len() - (-extra) as usize]);
+                        } else {
+                            p.extend_from_slice(h);
+                            p.extend_from_slice(&echo[..extra as usize]);
+                        }
+                        let hx = hex(&p);
+                        let q = format!("c11 responded {} {}", v6 as u8, hx);
+                        match catch(|| verif::icmp_responded(v6, &p)) {
+                            Ok(None) => ctx.emit(&q, "rejected"),
+                            Ok(Some(None)) => ctx.emit(&q, "none"),
+                            Ok(Some(Some((code, id, seq, data)))) => ctx.emit(&q, &format!("{} {} {} {}", code, id, seq, hex(&data))),
+                            Err(m) => {
+                                ctx.emit(&q, "panic");
+                                ctx.oracle_failure("panic", &format!("icmp deserialize/responded v6={} panicked ({}) on {}", v6, m, hx));
+                            }
+                        }
+                        ctx.stat("icmp_error_quote_boundary");
+                    }
+                }
+            }
+        }
         // IP header skipping on its own
         for t in &tails {
             let mut p = if v6 { v6hdr.clone() } else { v4hdr.clone() };
